@@ -15,9 +15,10 @@ Proof. apply zrange_length. Qed.
 
 Theorem agree_fixed_spec c :
   0 <= c_n c -> 1 <= c_batch c -> 1 <= c_par c -> c_kind c <> KPushIn ->
+  (o_copy c <> None -> c_kind c = KIdentity) ->
   agree PCeilClip c = true -> spec_ok c = true.
 Proof.
-  intros Hn Hb Hp Hk. unfold agree, predict, spec_ok.
+  intros Hn Hb Hp Hk Hcp. unfold agree, predict, spec_ok.
   assert (Hf : f_of (c_kind c) = fmap_g (g_of (c_kind c))) by (destruct (c_kind c); try reflexivity; contradiction).
   rewrite Hf.
   set (src := zrange 0 (Z.to_nat (c_n c))).
@@ -27,6 +28,22 @@ Proof.
     as (ins & outs & Hrun & Ho & Hi).
   rewrite Hrun.
   assert (Hlen : Z.of_nat (length src) = c_n c) by (subst src; rewrite zrange_len; lia).
+  destruct (o_copy c) as [[[[[eq dch] rch] re] fu]|] eqn:Ecp.
+  { (* copy mode: the kind is the identity, the sink received exactly the source *)
+    assert (Hki : c_kind c = KIdentity) by (apply Hcp; discriminate).
+    unfold agree_copy. fold src. cbn [out_code]. intros H.
+    apply andb_true_iff in H. destruct H as [Hoc H].
+    change ((0 =? 0)%N) with true in H. cbn iota in H.
+    repeat (apply andb_true_iff in H; destruct H as [H ?]).
+    assert (Hcat : concat outs = src).
+    { rewrite Ho, Hki. clear. induction src as [|x l IH]; cbn [flat_map g_of app]; [reflexivity | now rewrite IH]. }
+    rewrite Hcat in *.
+    match goal with Hq : Bool.eqb eq (zlist_eqb src src) = true |- _ =>
+      replace (zlist_eqb src src) with true in Hq by (symmetry; now apply zlist_eqb_eq);
+      apply eqb_prop in Hq; subst eq end.
+    repeat (apply andb_true_iff; split); try assumption; try reflexivity; try (now rewrite N.eqb_sym).
+    match goal with Hd : Z.eqb dch _ = true, Hr : Z.eqb rch _ = true |- _ =>
+      apply Z.eqb_eq in Hd; apply Z.eqb_eq in Hr; apply Z.eqb_eq; lia end. }
   intros H.
   repeat (apply andb_true_iff in H; destruct H as [H ?]).
   cbn [out_code] in *.
